@@ -18,8 +18,8 @@ RULE = ("every buffer = lead noise (offset 0..63) + frames (1, 2 or 3 from the a
 ASSUMPTIONS = [
     "pulses have exactly the stated amplitude; noise is present on the low samples and in the gaps only ('cleanly modulated')",
     "'at least 10 dB above the noise floor' is taken as: the noise peak is at least 10 dB below the weakest pulse",
-    "every frame lies completely inside one buffer with at least one frame length (+ the 113-bit decode window) of trailing noise",
-    "buffers are >= 600 samples (the noise estimator needs one 100 us window)",
+    "every frame lies completely inside one buffer; the noise after the last frame ranges from 0 samples to several frame lengths",
+    "every buffer contains at least one noise-only aligned 100 us window (the noise estimator takes the quietest window; real buffers hold 100 ms)",
 ]
 
 pms = loader.load("P")
@@ -71,9 +71,11 @@ def build(spec):
             buf += [next(ng) for _ in range(g)]
         if nm in ACCEPT:
             exp.append(h.upper())
-    tail = 480
-    while len(buf) + tail < 600:
-        tail += 40
+    tail = spec.get("tail", 480)
+    if tail < 480:
+        # the noise estimator takes the quietest ALIGNED 100 us (200-sample) window of the buffer: with a short tail a
+        # noise-only window must exist elsewhere, so 400 samples of lead noise are prepended (real buffers hold 100 ms)
+        buf = [next(ng) for _ in range(400)] + buf
     buf += [next(ng) for _ in range(tail)]
     return buf, exp
 
@@ -159,6 +161,17 @@ def gen(ctx):
                         if db is None and sh != "const":
                             continue
                         hs.append([{"frames": [nm], "offset": off, "amps": [a], "db": db, "shape": sh, "gap": "L", "nseed": ctx.seed + 1}])
+    # last frame close to the end of the buffer: frames lie completely inside, trailing noise 0 .. 240 samples
+    for nm in FRAMES:
+        for tail in (0, 1, 2, 40, 112, 113, 114, 226, 240):
+            for off in (0, 1, 7):
+                for a in (0.3, 1.4):
+                    for db in (None, -20, -10):
+                        k += 1
+                        hs.append([{"frames": [nm], "offset": off, "amps": [a], "db": db, "shape": SHAPES[k % 3], "gap": "L",
+                                    "nseed": ctx.seed + 1, "tail": tail}])
+                        hs.append([{"frames": ["DF17a", nm], "offset": off, "amps": [1.0, a], "db": db, "shape": SHAPES[k % 3], "gap": "L+1",
+                                    "nseed": ctx.seed + 1, "tail": tail}])
     # two frames
     sub = ["DF17a", "DF17ones", "DF20", "DF4", "DF5zeros", "DF11alt", "DF17badcrc", "DF18"]
     names2 = list(FRAMES) if ctx.thorough else sub
